@@ -80,6 +80,19 @@ func main() {
 		}
 		cases = append(cases, func(c *lg.Case) { blockCase(c, size, kind) })
 	}
+	// ---- blk at the largest legal extent of one axis (MaxBlockSize = 1024 voxels = 128 sub-blocks) and just below it:
+	// a block the encoder accepts must survive its own serialisation
+	extreme := [][3]int{{1024, 16, 16}, {16, 1024, 16}, {16, 16, 1024}}
+	if !p.Quick() {
+		extreme = append(extreme, [3]int{1016, 16, 16}, [3]int{16, 1016, 24}, [3]int{24, 16, 1016}, [3]int{1024, 8, 8})
+	}
+	if p.Flavour != "" {
+		extreme = extreme[rot%3 : rot%3+1]
+	}
+	for i, size := range extreme {
+		size, kind := size, kinds[(i+rot)%len(kinds)]
+		cases = append(cases, func(c *lg.Case) { blockCase(c, size, kind) })
+	}
 	// ---- stream
 	for i := 0; i < nStream; i++ {
 		i := i
